@@ -709,6 +709,33 @@ def r10_bit_loop_and_decode_siblings(idx, r):
                   msg=f"{f.name} reads parameter datasets but, unlike its sibling readers, never decodes bytes to str: string parameters (xsType, envGroup) come back as b'A'")
 
 
+def r11_flag_collision_guard(idx, r):
+    """Two flags with the same bit value are indistinguishable in every stored flag set. The guard in Flag._registerField
+    must therefore test the new VALUE against the values already taken. A membership test of the value against the
+    name -> value mapping looks at its KEYS (names) and can never fire."""
+    fl = idx.cls("armi.utils.flags.Flag")
+    f = fl.methods.get("_registerField") if fl is not None else None
+    if f is None:
+        raise AnchorMissing("Flag._registerField")
+    st = [s_ for s_ in iter_stores(f.node) if s_.kind == "subscript" and isinstance(s_.node, ast.Subscript)]
+    maps = {norm(s_.node.value): (norm(s_.node.slice), norm(s_.value)) for s_ in st if s_.value is not None}
+    if not maps:
+        raise AnchorMissing("_registerField: store into the name -> value mapping")
+    tests = [n for n in ast.walk(f.node) if isinstance(n, ast.Compare) and len(n.ops) == 1 and isinstance(n.ops[0], (ast.In, ast.NotIn))]
+    guards_value = False
+    for t in tests:
+        cont = norm(t.comparators[0])
+        x = norm(t.left)
+        if cont in maps:
+            key, val = maps[cont]
+            r.require(x != val or x == key, f"guard:{norm(t)[:50]}:tests-keys-with-a-key", f, node=t,
+                      msg=f"`{norm(t)}` looks `{x}` (the flag's VALUE) up among the keys of `{cont}`, which are flag NAMES: the test can never be true, so a second flag "
+                          "with an already taken bit value is accepted and the two flags are one and the same in every stored flag set")
+        elif any(val == x for key, val in maps.values()):
+            guards_value = True
+    r.require(guards_value, "guard:value-collision-tested", f, msg="registering a field must test its value against the values already taken")
+
+
 def run(idx, chk):
     chk.explanation = (
         "C05: pack/unpack are sibling implementations; their attrs key sets, strategy decision trees, None-sentinel tables, "
@@ -736,3 +763,5 @@ def run(idx, chk):
                  necessary="'a collection that cannot be represented is rejected at write time; it is never stored as something that reads back different' (or not at all)")
     chk.run_rule("R05.10", "the bit-remapping loop is unbounded; every sibling reader of parameter datasets decodes bytes to str", lambda r: r10_bit_loop_and_decode_siblings(idx, r), floor=4,
                  necessary="flag sets keep their meaning (all bits); strings are returned as the same values by every read path")
+    chk.run_rule("R05.11", "a new flag's value is tested against the values already taken (not against the names)", lambda r: r11_flag_collision_guard(idx, r), floor=1,
+                 necessary="'flag sets keep their meaning': two flags on one bit cannot be told apart")
